@@ -36,7 +36,7 @@ func init() {
 			"every truncation and single-byte extension of honest encodings, every length/count field set to {0,1,actual-1,actual+1,2^k-1,2^k}, varints re-encoded in 1/2/4/8 bytes up to 2^62-1, every type tag, splices, seeded bit flips and random strings behind valid headers. " +
 			"Oracle per call: it returns (no panic, no process death, no CPU-time stall) and allocates at most C + S*len(input) bytes (runtime/metrics /gc/heap/allocs:bytes; C and S calibrated at start-up as 8x the largest honest allocation and 8x the largest honest bytes-per-input-byte ratio). Each call is journalled before it is made; workers run under RLIMIT_AS. " +
 			"A second, coverage-guided stage runs Go's native fuzzer (FuzzC03 in props/fuzz_test.go: mutated (target, input) pairs seeded with the honest and the well-framed hostile encodings, same oracle) for 40 000 / 4 000 000 executions. distinct_nontrivial = distinct (target, outcome, mutation family) triples",
-		Floors:            []string{"calls_returned", "outcome_accept", "outcome_reject", "family_truncate", "family_lenfield", "family_varint", "family_tag", "family_random", "family_extend", "family_rebuild", "type3_sealed_response_selfcheck_ok", "malformed_by_construction_rejected", "honest_input_served_after_hostile_inputs"},
+		Floors:            []string{"calls_returned", "outcome_accept", "outcome_reject", "family_truncate", "family_lenfield", "family_varint", "family_tag", "family_random", "family_extend", "family_rebuild", "type3_sealed_response_selfcheck_ok", "malformed_by_construction_rejected", "honest_input_served_after_hostile_inputs", "deeply_nested_der_inputs"},
 		Assumptions:       []string{"amd64", "ed25519.Verify is only ever given a 32-byte public key (a different key length is a documented caller-side precondition, not peer data)"},
 		HostileBytes:      true,
 		StallIsViolation:  true,
@@ -70,6 +70,8 @@ type c03Target struct {
 	call   func(b []byte) bool
 	// rebuild returns well-framed encodings with hostile content
 	rebuild func(r *core.Rand) [][]byte
+	// nest returns inputs with constructed elements nested depth deep
+	nest func(depth int) [][]byte
 	// malformed returns inputs that are malformed BY CONSTRUCTION (an element that is no group-element encoding, a
 	// scalar or integer out of range): the statement's last sentence applies - they are reported through the error
 	// or false result, never served
@@ -337,6 +339,21 @@ func (w *c03World) mutate(t *c03Target, seed []byte, family string, r *core.Rand
 		for _, b := range t.malformed(r) {
 			w.invoke(t, "malformed", b)
 		}
+	case "nesting":
+		// constructed DER elements nested millions deep (a decoder that descends recursively runs out of stack: a process
+		// death, not even a panic)
+		if t.nest == nil || !bytesEq(seed, t.seeds[0]) {
+			return
+		}
+		depth := 12_000_000
+		if thorough {
+			depth = 24_000_000
+		}
+		for _, b := range t.nest(depth) {
+			w.invoke(t, "nesting", b)
+			w.c.Class("deeply_nested_der_inputs")
+			w.c.Info("der_nesting_depth", depth)
+		}
 	case "rebuild":
 		if t.rebuild == nil {
 			return
@@ -408,7 +425,7 @@ const (
 	c03TargetConst   = 16 << 10
 )
 
-var c03Families = []string{"truncate", "extend", "lenfield", "varint", "tag", "bitflip", "random", "rebuild", "malformed", "exhaustion"}
+var c03Families = []string{"truncate", "extend", "lenfield", "varint", "tag", "bitflip", "random", "rebuild", "malformed", "exhaustion", "nesting"}
 
 func runC03(c *core.Ctx) {
 	w := &c03World{c: c, honestOK: map[string]bool{}, honestAlloc: map[string]uint64{}, honestLen: map[string]int{}, seenAlloc: map[string]uint64{}}
@@ -899,6 +916,16 @@ func (w *c03World) build() {
 	pssAlg, rsaAlg := spkiAlgs()
 	w.add(&c03Target{name: "util.UnmarshalTokenKey", seeds: [][]byte{der1, der2},
 		rebuild: func(r *core.Rand) [][]byte { return rebuildTokenKeyDER(r, rk[0].N, rk[0].E, pssAlg, rsaAlg) },
+		nest: func(depth int) [][]byte {
+			bits := der1[4+len(pssAlg):] // the BIT STRING element of the honest key
+			var out [][]byte
+			for _, tag := range []byte{0x30, 0xa0, 0x31} {
+				nested := nestedDER(depth, tag)
+				out = append(out, nested, derWrap(0x30, nested, bits), derWrap(0x30, derWrap(0x30, pssAlg[2:13], nested), bits),
+					derWrap(0x30, pssAlg, derWrap(0x03, []byte{0}, nested)))
+			}
+			return out
+		},
 		fields: func(b []byte) []lenField {
 			// DER length octets of the outer SEQUENCE and the first inner one
 			var fs []lenField
@@ -918,6 +945,10 @@ func (w *c03World) build() {
 	der, err := ecdsa.SignASN1(rand.Reader, ek, dig[:])
 	must(err)
 	w.add(&c03Target{name: "ecdsa.VerifyASN1", seeds: [][]byte{der},
+		nest: func(depth int) [][]byte {
+			nested := nestedDER(depth, 0x30)
+			return [][]byte{nested, derWrap(0x30, nested, der[4+int(der[3]):]), derWrap(0x30, der[2:4+int(der[3])], nested)}
+		},
 		fields: func(b []byte) []lenField {
 			var fs []lenField
 			for _, off := range []int{1, 3} {
